@@ -50,8 +50,16 @@ harness(void)
         uint8_t a = A_CONST, b = I.b, c = I.c;
         VASSERT(spec_gf_mul(spec_gf_mul(a, b), c) == spec_gf_mul(a, spec_gf_mul(b, c)), "associative");
 #elif defined(H_TBL)
-        uint8_t tbl[32];
+#ifndef TBL_OFF
+#define TBL_OFF 0
+#endif
+        /* the table pointer carries no documented alignment: place it at every offset 0..7 of an 8-aligned arena */
+        static uint64_t arena64[6];
+        uint8_t *tbl = (uint8_t *) arena64 + TBL_OFF;
+        for (int q = 0; q < 48; q++)
+                ((uint8_t *) arena64)[q] = 0xA5;
         gf_vect_mul_init(I.c, tbl);
+        VASSERT(((uint8_t *) arena64)[TBL_OFF + 32] == 0xA5 && (TBL_OFF == 0 || ((uint8_t *) arena64)[TBL_OFF - 1] == 0xA5), "nothing written outside the 32-byte table");
         VASSUME(I.i < 16);
         VASSERT(tbl[I.i] == spec_gf_mul(I.c, I.i), "tbl[i]==c*i");
         VASSERT(tbl[16 + I.i] == spec_gf_mul(I.c, (uint8_t) (I.i << 4)), "tbl[16+i]==c*(16i)");
